@@ -131,6 +131,16 @@ public:
     std::string value() const;
 
     /**
+     * @brief Set the value of this XmlAttribute.
+     *
+     * Sets the value of this XmlAttribute, the name and the namespace
+     * of the attribute are left as they are.
+     *
+     * @param value The @c std::string value to set.
+     */
+    void setValue(const std::string &value);
+
+    /**
      * @brief Get the XmlAttribute immediately following this XmlAttribute.
      *
      * Gets the next XmlAttribute immediately following this XmlAttribute based
